@@ -213,6 +213,7 @@ type e2eType struct {
 	ad    adapter
 	fold  bool // Fold supports only string, int, int64 keys
 	quick bool
+	few   bool // large key set: only 2 producer shards and one variant per operator
 	f     *bigslice.FuncValue
 }
 
@@ -295,6 +296,22 @@ func mkType(name string, ad adapter, fold, quick bool) *e2eType {
 func sI(v int) string { return fI(int64(v)) }
 
 // e2eTypes are created at init (bigslice.Func registration order must be fixed).
+// manyInts: 700 distinct keys, so that every keyed operator sees more than two of
+// Cogroup's 128-row merge buffers (and several growths of a combiner table) per shard.
+func manyInts() []int {
+	ks := make([]int, 700)
+	for i := range ks {
+		ks[i] = i*7 - 1000
+	}
+	return ks
+}
+
+func manyType() *e2eType {
+	t := mkType("int-700-keys", &adapter1[int]{keys: manyInts(), canon: sI}, true, true)
+	t.few = true
+	return t
+}
+
 var e2eTypes = []*e2eType{
 	mkType("int", &adapter1[int]{keys: []int{0, 1, -1, 2, 1 << 40, math.MinInt64, 7, 256}, canon: sI}, true, true),
 	mkType("string", &adapter1[string]{keys: []string{"", "a", "b", "ab", "a\x00", "abcde", "ba", "\x00", strings.Repeat("k", 33), strings.Repeat("k", 32) + "l", strings.Repeat("long key ", 30)}, canon: func(s string) string { return s }}, true, true),
@@ -308,6 +325,7 @@ var e2eTypes = []*e2eType{
 	mkType("float32", &adapter1[float32]{keys: []float32{0, float32(math.Copysign(0, -1)), 1, -1, 0.5, float32(math.Inf(-1))}, canon: func(v float32) string { return canonF(float64(v)) }}, false, false),
 	mkType("(int,string)", &adapter2[int, string]{ka: []int{0, 1, -1}, kb: []string{"", "a"}, ca: sI, cb: func(s string) string { return s },
 		pairs: [][2]int{{0, 0}, {0, 1}, {1, 0}, {1, 1}, {2, 0}, {2, 1}}}, false, true),
+	manyType(),
 }
 
 type e2eCase struct {
@@ -370,6 +388,16 @@ func runE2E(r *ev.Run, cov ev.Coverage) {
 				continue
 			}
 			for _, layout := range layouts {
+				if t.few {
+					cases = append(cases,
+						e2eCase{t: t, op: opReduce, p: 2, layout: layout, local: local},
+						e2eCase{t: t, op: opFold, p: 2, layout: layout, local: local},
+						e2eCase{t: t, op: opCogroup, p: 2, q: 1, layout: layout, local: local},
+						e2eCase{t: t, op: opCogroup, p: 1, q: 2, layout: layout, local: local},
+						e2eCase{t: t, op: opReshuffle, p: 2, layout: layout, local: local},
+						e2eCase{t: t, op: opRepartition, p: 2, variant: 1, layout: layout, local: local})
+					continue
+				}
 				for p := 1; p <= 3; p++ {
 					cases = append(cases, e2eCase{t: t, op: opReduce, p: p, layout: layout, local: local})
 					if t.fold {
